@@ -313,6 +313,20 @@ def gen_cancel_race(rng, tier):
     return c
 
 
+def gen_panic_one_worker(rng, tier):
+    """a mapper panic with exactly one worker: WithWorkers(1), clamped WithWorkers(<=1), Finish/FinishVoid with one
+    function, ForEach with one worker: re-raised in the calling goroutine with its value"""
+    fn = rng.choice(FNS[:6])
+    if fn in ("Finish", "FinishVoid"):
+        return _case(rng, fn=fn, workers=1, items=[[{"op": "panic", "k": 201}]], rtake=0 if fn == "Finish" else -1,
+                     cls="panic1")
+    n = rng.randint(1, 4)
+    items = [[] if fn == "ForEach" else _writes(rng, 2) for _ in range(n)]
+    j = rng.randrange(n)
+    items[j] = items[j][:rng.randint(0, len(items[j]))] + [{"op": "panic", "k": 201}]
+    return _case(rng, fn=fn, workers=rng.choice([1, 1, 0, -1]), items=items, rtake=-1, rafter=[], cls="panic1")
+
+
 def gen_ae(rng, tier):
     """direct stream on errorx.AtomicError: Set of nil / typed nils / pointer / value errors, Load in between"""
     ops = []
@@ -349,15 +363,103 @@ def gen_boundary(rng, tier):
                  rtake=-1, rafter=[], cls="boundary")
 
 
+def _suspicious(case):
+    """a panicking callback with exactly one worker (WithWorkers(<=1), Finish/FinishVoid with one function): run in a
+    driver process of its own, so that a panic escaping in a library goroutine (process death) is pinned to the case"""
+    if case["fn"] == "AtomicError":
+        return False
+    panics = any(a["op"] == "panic" for it in case["items"] for a in it["acts"]) or case.get("gpanic", -1) >= 0
+    return panics and _eff_workers(case) == 1
+
+
+def _crash_obs(log):
+    first = next((ln.strip() for ln in log.split("\n") if ln.startswith(("panic:", "fatal error:"))), "process died")
+    return {"outcome": {"kind": "crash"}, "trace": [], "leaked": 0, "crash": first[:200]}
+
+
 def drive(cases, tier):
-    """thorough: the driver runs under the race detector (a reported DATA RACE fails the test binary)"""
-    from vlib import run_driver
+    """One compiled test binary (thorough: with the race detector; a reported DATA RACE fails it), then: the bulk of
+    the cases in one process, every suspicious case in a process of its own; if a process dies, bisection pins the
+    death to single cases, which get the observation {"outcome": {"kind": "crash"}} - a concrete failing case."""
+    import json
+    import vlib
     name = ID + ("s" if tier == "search" else "")
+    os.makedirs(vlib.WORK, exist_ok=True)
+    binp = os.path.join(vlib.WORK, "%s.test" % name)
+    env = dict(vlib.GOENV)
+    cmd = ["go", "test", "-c", "-tags", "verif", "-vet=off", "-o", binp]
     if tier == "thorough":
-        obs, log = run_driver(GO_PKG, cases, name=name, timeout=DRIVER_TIMEOUT, race=True)
-        if obs is not None or "DATA RACE" in log:
-            return obs, log
-    return run_driver(GO_PKG, cases, name=name, timeout=DRIVER_TIMEOUT)
+        env["CGO_ENABLED"] = "1"
+        rc, out = vlib.sh(cmd + ["-race", GO_PKG], cwd=vlib.REPO, env=env, timeout=600)
+        if rc != 0:
+            env = dict(vlib.GOENV)
+            rc, out = vlib.sh(cmd + [GO_PKG], cwd=vlib.REPO, env=env, timeout=600)
+    else:
+        rc, out = vlib.sh(cmd + [GO_PKG], cwd=vlib.REPO, env=env, timeout=600)
+    if rc != 0:
+        return None, "driver build failed\n" + out[-4000:]
+    pkgdir = os.path.join(vlib.REPO, GO_PKG)
+    counter = [0]
+    logs = []
+
+    def run(idx):
+        """returns list of obs for cases[idx] or None if the process failed"""
+        counter[0] += 1
+        inp = os.path.join(vlib.WORK, "%s.in.%d.jsonl" % (name, counter[0]))
+        outp = os.path.join(vlib.WORK, "%s.out.%d.jsonl" % (name, counter[0]))
+        with open(inp, "w") as f:
+            for i in idx:
+                f.write(json.dumps(cases[i], separators=(",", ":")) + "\n")
+        if os.path.exists(outp):
+            os.remove(outp)
+        e = dict(env, VERIF_IN=inp, VERIF_OUT=outp)
+        rc, out = vlib.sh([binp, "-test.run", "^TestVerifDriver$", "-test.timeout", "%ds" % DRIVER_TIMEOUT],
+                          cwd=pkgdir, env=e, timeout=DRIVER_TIMEOUT + 60)
+        res = None
+        if rc == 0 and os.path.exists(outp):
+            res = [json.loads(ln) for ln in open(outp) if ln.strip()]
+            if len(res) != len(idx):
+                res = None
+        for pth in (inp, outp, outp + ".tmp"):
+            if os.path.exists(pth):
+                os.remove(pth)
+        if res is None:
+            logs.append(out[-3000:])
+        return res, out
+
+    obs = [None] * len(cases)
+
+    def solve(idx, depth=0):
+        if not idx:
+            return True
+        res, out = run(idx)
+        if res is not None:
+            for i, o in zip(idx, res):
+                obs[i] = o
+            return True
+        if "DATA RACE" in out:
+            return False
+        if len(idx) == 1:
+            obs[idx[0]] = _crash_obs(out)
+            return True
+        mid = len(idx) // 2
+        return solve(idx[:mid], depth + 1) and solve(idx[mid:], depth + 1)
+
+    bulk = [i for i, c in enumerate(cases) if not _suspicious(c)]
+    if not solve(bulk):
+        return None, "DATA RACE reported by the race detector\n" + "\n".join(logs)[-4000:]
+    for i, c in enumerate(cases):
+        if _suspicious(c):
+            if not solve([i]):
+                return None, "DATA RACE reported by the race detector\n" + "\n".join(logs)[-4000:]
+    # keep the last input/output of the whole run where the other tools expect them
+    with open(os.path.join(vlib.WORK, "%s.in.jsonl" % name), "w") as f:
+        for c in cases:
+            f.write(json.dumps(c, separators=(",", ":")) + "\n")
+    with open(os.path.join(vlib.WORK, "%s.out.jsonl" % name), "w") as f:
+        for o in obs:
+            f.write(json.dumps(o, separators=(",", ":")) + "\n")
+    return obs, "\n".join(logs)
 
 
 def generate(rng, tier, n):
@@ -387,8 +489,10 @@ def _generate(rng, tier, n):
             c = gen_ctx(rng, tier)
         elif r < 0.86:
             c = gen_gate(rng, tier)
-        elif r < 0.88:
+        elif r < 0.875:
             c = gen_cancel_race(rng, tier)
+        elif r < 0.89:
+            c = gen_panic_one_worker(rng, tier)
         elif r < 0.90:
             c = gen_ae(rng, tier)
         elif r < 0.94:
@@ -415,6 +519,8 @@ def search(rng, problems):
         out.append(_case(rng, workers=3, items=items, rtake=-1, rafter=[_w(7)], cls="search"))
     for _ in range(25):
         out.append(gen_cancel_race(rng, "search"))
+    for _ in range(12):
+        out.append(gen_panic_one_worker(rng, "search"))
     for _ in range(20):
         items = [[{"op": "cancel", "k": 101}, _w(1), _w(2)], [_w(1)]]
         out.append(_case(rng, workers=2, items=items, rtake=-1, rafter=[_w(7)], cls="search"))
@@ -503,6 +609,8 @@ def _out(o):
         return "XNil"
     if k == "hang":
         return "XHang"
+    if k == "crash":
+        return "XCrash"
     return "XOther"
 
 
@@ -613,7 +721,7 @@ def classify(case, obs):
     tr = obs.get("trace", [])
     out = obs.get("outcome", {})
     kind = out.get("kind")
-    if obs.get("leaked", 0) or kind in ("hang", "other", None):
+    if obs.get("leaked", 0) or kind in ("hang", "other", "crash", None):
         return None
     acts = [a["op"] for it in case["items"] for a in it["acts"]]
     cand = None
